@@ -2206,6 +2206,9 @@ const foreignRule = "case = enumeration (own process: pcs.SetUnsafeLaxVerify() i
 	"TCB info / QE identity ids match the quote's TEE type, the signed bodies are Intel-signed fixture objects, and for the two known-good quotes identity and report data are the original's; " +
 	"non-trivial = combination with a TCB info of another platform or TEE that no earlier check rejected (outcome: rejected by the FMSPC/id comparison, by the TCB level, or accepted); distinct = (quote, TCB info, QE identity, time, policy)"
 
+// laxModeOn records that this process switched the lax TCB status mode on (irreversible).
+var laxModeOn bool
+
 // TestC18ForeignPlatformLax must run in its own process (the driver does that): the lax mode
 // cannot be switched off again.
 func TestC18ForeignPlatformLax(t *testing.T) {
@@ -2217,6 +2220,7 @@ func TestC18ForeignPlatformLax(t *testing.T) {
 		ev.Infra(t, "fixtures: %v", err)
 	}
 	pcs.SetUnsafeLaxVerify()
+	laxModeOn = true
 	type qsrc struct {
 		name  string
 		quote []byte
@@ -2432,6 +2436,9 @@ const bindingRule = "case = TCBBundle.Verify (the step that binds collateral to 
 	"model allows => must be accepted; non-trivial = at least one input differs from the genuine call and the genuine call itself is accepted (checked at start-up); distinct = (vector, all inputs)"
 
 func TestC18BundleBinding(t *testing.T) {
+	if laxModeOn {
+		t.Skip("the lax TCB status mode was switched on earlier in this process; the model below is for the strict mode")
+	}
 	rec := ev.New("C18", "TestC18BundleBinding", bindingRule,
 		"ConfigurationNeeded, ConfigurationAndSWHardeningNeeded, OutOfDate*, Revoked and missing TCB statuses are not acceptable outside the lax mode")
 	defer rec.Flush()
